@@ -103,6 +103,21 @@ func runC19(seed int64, n int, dir string, tier string) *Report {
 			d.Metadata.Id = id
 			d.Metadata.Name = fmt.Sprintf("doc%d", k)
 			d.NodeList = g.NodeList(gen.Shape{MaxNodes: 3, MaxEdges: 3, WellFormed: true, Richness: 0.3})
+			if k > 0 && g.Chance(0.5) {
+				// another version of an earlier document: same identifier, same encoded length, other content
+				prev := docs[g.Int(len(docs))]
+				if prev.hasMD && prev.id != "" {
+					var pd sbom.Document
+					if proto.Unmarshal(prev.bytes, &pd) == nil {
+						d = &pd
+						id = prev.id
+						d.Metadata.Name = fmt.Sprintf("doc%d", k)
+						if len(d.NodeList.Nodes) > 0 && g.Chance(0.5) {
+							d.NodeList.Nodes[0].Version = gen.Pick(g, []string{"1.0.0", "1.0.1", "2.0.0"})
+						}
+					}
+				}
+			}
 			hasMD := true
 			if k == nd-1 && g.Chance(0.3) {
 				d.Metadata = nil
